@@ -28,6 +28,10 @@ def alphabet(tier):
         # negative commissions (liquidity rebates) are commissions too
         evs = [('fill', q, p_, c) for q in (2, -2, 5, -5) for p_ in ('10', '12.5') for c in ('-0.4', '0.3')]
         return evs + [('mark', '11')]
+    if tier == 'numpy':
+        # the same small alphabet with the numbers arriving as NumPy scalars (quantities read from a DataFrame blotter)
+        evs = [('fill', q, p_, c, 'np') for q in (2, -2, 5, -5) for p_ in ('10', '12.5') for c in ('0', '1.25')]
+        return evs + [('mark', '11')]
     if tier == 'fractional':
         # non-integer lots (binary fractions, so the exact ledger and the floats agree on when the position is flat).
         # Every lot is at least one unit: the library documents integer quantities and Position.transact treats a
@@ -171,7 +175,10 @@ def apply_position(pos, ref, ev, i):
         return pos, ref.copy(), fails
     if ev[0] == 'fill':
         q, p, c = ev[1], ev[2], ev[3]
-        txn = Transaction('A', q, dt, float(p), 'x%d' % i, commission=float(c))
+        if len(ev) > 4 and ev[4] == 'np':
+            txn = Transaction('A', np.int64(q), dt, np.float64(float(p)), 'x%d' % i, commission=np.float64(float(c)))
+        else:
+            txn = Transaction('A', q, dt, float(p), 'x%d' % i, commission=float(c))
         if pos is None:
             pos = Position.open_from_transaction(txn)
         else:
@@ -421,6 +428,11 @@ def run(tier, res, is_known):
     qevs = alphabet('fractional')
     qitems = [('fractional', (), 0)] + [('fractional', (pre,), 2 if tier == 'quick' else 3) for pre in qevs]
     product(subtree_position, qitems, res, is_known, label='position tree, fractional lots', chunk=1, sample_every=7)
+    if any(not is_known(v) for v in res.violations):
+        return
+    nevs = alphabet('numpy')
+    nitems = [('numpy', (), 0)] + [('numpy', (pre,), 3) for pre in nevs]
+    product(subtree_position, nitems, res, is_known, label='position tree, NumPy scalar arguments', chunk=1, sample_every=7)
     if any(not is_known(v) for v in res.violations):
         return
     revs = alphabet('rebate')
